@@ -1405,3 +1405,13 @@ func ruleC06BranchErrors(c *Ctx) {
 		c.Unknown("c06.branch-errors", "union functions", "-", fmt.Sprintf("only %d error-returning call sites found in the union builder and the branch executor (at least 4 confirmed by reading)", n))
 	}
 }
+
+// Round 8 cross registrations: `SELECT *` over the FROM-less row of a query with a WITH hands out whatever PlainDocument
+// lets through (C07: a CTE is a table, never a column of dual); a table aliased to its own name is still aliased (C02:
+// `items.price` on `FROM items AS items` reads the price).
+func init() {
+	register("C07", ruleC12PlainDocumentOnly)
+	register("C02", ruleC07FromArms)
+}
+
+func ruleC12PlainDocumentOnly(c *Ctx) { c.plainDocument() }
